@@ -67,6 +67,8 @@ def run_loop(ex, n, st, fr):
         return cut_while(ex, n, st, fr, spec)
     # for
     def go(itv, s):
+        if isinstance(itv, VOpt):
+            return ex.unopt(itv, s, go)
         src = iter_source(ex, itv, s)
         if src[0] == 'concrete':
             return unroll_concrete(ex, n, src[1], s, fr)
